@@ -125,6 +125,28 @@ CLAIMED["C14"] = dict(
               "assembled systems with a scripted linear solver",
     ref="4/C14")
 
+CLAIMED["C19"] = dict(
+    text="Theorems for an arbitrary function and candidate derivative: an error names the first column with a failing "
+         "entry and exactly that column's failing rows; derivatives whose entries pass the closeness test (in particular "
+         "within deriv_tol of the difference quotient) are accepted; a single entry wrong by more than twice its closeness "
+         "threshold is reported with its column and exactly its row, at every position. Model of deriv_check and "
+         "Solver._deriv_check (objective, constraints, Hessian; on the internal scaled+slack problem) tied by exact "
+         "correspondence through Solver.solve(deriv_check=...) on problems with one corrupted entry; twin runs show a "
+         "passing check does not alter the solve. Partial: float cancellation error of the quotient is not modelled "
+         "('well-scaled' = truncation error below tolerance).",
+    note=BASE_NOTE, technique="Coq proof (induction over columns; closeness-test lemmas over Q) + vm_compute differential correspondence",
+    ref="4/C19")
+CLAIMED["C20"] = dict(
+    text="Theorems for data of ANY magnitude (arbitrary rationals): the frexp exponent e satisfies 2^(e-1) <= |x| < 2^e and "
+         "depends only on the value; |x| 2^(1-e) in [1,2); Nominal: scaled non-zero values in [1,2); GradJac: scaled "
+         "non-zero gradient components in [1,2) and the largest scaled entry of every non-zero Jacobian row in [1,2); "
+         "KKT: whenever the equilibration loop returns, every column of the matrix it holds has absolute sum in [1,4) "
+         "(or < 1e-10). Weights are integers by type. Model tied by exact correspondence on data spanning 2^-50..2^50. "
+         "Partial: that the matrix held at exit is the input scaled by the returned weights is tied by correspondence and "
+         "the search oracle, not proved; float sqrt rounding at exact powers of four is off the grid.",
+    note=BASE_NOTE, technique="Coq proof (Z.log2 bounds lifted to Q; nra) + vm_compute differential correspondence",
+    ref="4/C20")
+
 PENDING = {}
 
 NOT_APPLICABLE = {
